@@ -764,7 +764,7 @@ func c04SweepOne(c *engine.Ctx, cs c04Case, b []byte) {
 	fail := func(what, desc string) {
 		cc := cs
 		cc.Hex = hex.EncodeToString(b)
-		c.Violate(key+"/"+what, fmt.Sprintf("%s; input %x", desc, b), "c04", cc)
+		c.Violate(key+"/"+what, clipStr(fmt.Sprintf("%s; input (%d bytes) %x", desc, len(b), b), 3000), "c04", cc)
 	}
 	var t geom.T
 	var err error
@@ -971,6 +971,32 @@ func c04Run(c *engine.Ctx) {
 						}
 					}
 				}
+			}
+		})
+	}
+	// very large intact encodings: one coordinate array of 2^k+1 positions for k = 11..16 (a reader
+	// that fills the array in blocks shows at its block size), decoded, re-encoded and decoded
+	// again; and cut in the middle of the array
+	for _, cfg := range [][4]int{{0, -1, -1, -1}, {0, 1 << 17, 1 << 17, 1 << 17}} {
+		setLimits(cfg)
+		var huge []*ref.G
+		for k := 11; k <= 16; k++ {
+			n := 1<<k + 1
+			huge = append(huge, ref.NewLine(ref.LineString, geom.XY, n, ref.Counter()))
+			if k <= 14 {
+				huge = append(huge, ref.NewParts(ref.Polygon, geom.XYZM, []int{3, n}, ref.Counter()),
+					ref.NewParts(ref.MultiLineString, geom.XYZ, []int{n, 2}, ref.Counter()))
+			}
+		}
+		c.Parallel(len(huge), func(i int) {
+			g := huge[i]
+			for fi, f := range formats {
+				xdr := (i+fi)%2 == 1
+				enc := ref.EncodeWKB(g, xdr, f.Ext)
+				cs := c04Case{Mode: "sweep", Ext: f.Ext, NaN: f.NaN, Limits: cfg}
+				c04SweepOne(c, cs, enc)
+				c04SweepOne(c, cs, enc[:len(enc)/2+3])
+				c.Count("huge_encodings", 1)
 			}
 		})
 	}
